@@ -346,6 +346,8 @@ def main():
                 open(sp, "wb").write(edited(len(order) // 2) if i == 0 else rnd.randbytes(20000))
                 roles[sp] = "seed"
                 args += ["--seed", sp]
+            if m.get("seed_out"):
+                args += ["--seed", out_arg]
             if m["stdin_seed"]:
                 args += ["--seed", "-"]
                 stdin_data = edited(len(order) // 3)
